@@ -149,27 +149,74 @@ PROPERTIES["C15"] = {
 }
 
 
+def M(cls, args, tier="quick", witnesses=(), timeout=900, **kw):
+    """SMT job: MIR of shuttle-schedulers (nightly dump of the scratch copy) executed symbolically with z3."""
+    import importlib.util as _u
+    name = {
+        "WholeRun": lambda a: f"c09_mir_dfs_trees_d{a[0]}_w{a[1]}_{'bound' if a[2] else 'nobound'}",
+        "Step": lambda a: f"c09_mir_dfs_step_L{a[0]}_s{a[1]}_n{a[2]}",
+        "NewExecution": lambda a: f"c09_mir_dfs_new_execution_L{a[0]}",
+        "NoRandomData": lambda a: "c09_mir_dfs_refuses_draws_when_disallowed",
+    }[cls](args)
+    d = {"kind": "smt", "crate": "shuttle-schedulers", "name": name, "harness": name, "harness_class": cls, "args": list(args),
+         "tier": tier, "witnesses": list(witnesses), "timeout": timeout, "property": "C09"}
+    d.update(kw)
+    return d
+
+
+_W_TREE = ["tree with at least 3 schedules", "tree with a single schedule", "the last sibling at a level has more than one child"]
+_C09_STEPS = [(L, s, n) for L in range(0, 4) for s in range(0, L + 1) for n in (1, 2, 3)]
 PROPERTIES["C09"] = {
     "level": "model_checking",
     "jobs": [
-        K("c09_dfs_depth2", timeout=900),
-        K("c09_dfs_depth2_gap_ids", timeout=900),
-        K("c09_dfs_depth2_maxiter", timeout=900),
-        K("c09_dfs_sym_root_22", timeout=900),
-        K("c09_dfs_2_sym_2", timeout=900),
-        K("c09_dfs_lit_222", timeout=900),
-    ],
+        M("WholeRun", [2, 2, False], witnesses=_W_TREE),
+        M("WholeRun", [2, 3, True], witnesses=_W_TREE + ["three tasks offered at one decision", "the iteration bound cuts the enumeration short"]),
+        M("WholeRun", [3, 2, False], witnesses=_W_TREE),
+        M("NoRandomData", [], witnesses=["draw refused"]),
+    ]
+    + [M("Step", list(a)) for a in _C09_STEPS]
+    + [M("NewExecution", [L], witnesses=["an execution is started", "the run ends (bound reached or tree exhausted)"]) for L in range(0, 4)]
+    + [K("c09_fixed_data_source_rewinds", module="kp", timeout=900)]
+    + [
+        M("WholeRun", [3, 2, True], tier="thorough", witnesses=_W_TREE, timeout=1800),
+        M("WholeRun", [2, 4, True], tier="thorough", witnesses=_W_TREE, timeout=1800),
+        M("WholeRun", [4, 2, False], tier="thorough", witnesses=_W_TREE, timeout=5400, max_paths=2000000),
+    ]
+    + [M("Step", [L, s, n], tier="thorough") for L in (4, 5) for s in range(0, L + 1) for n in (1, 2, 3, 4)]
+    + [M("NewExecution", [L], tier="thorough", witnesses=["an execution is started", "the run ends (bound reached or tree exhausted)"]) for L in (4, 5, 6)],
     "functions_encoded": [
-        "shuttle_schedulers::dfs::DfsScheduler::{new, new_execution, next_task, next_u64, has_more_choices}",
-        "shuttle_engine::scheduler::data::fixed::FixedDataSource::{initialize, reinitialize, next_u64}",
+        "shuttle_schedulers::dfs::DfsScheduler::{new, new_execution, next_task, next_u64, has_more_choices} and their closures: "
+        "MIR dumped by the nightly compiler from the scratch copy of /repo on every run, executed symbolically (lib/mirsym.py, z3)",
+        "shuttle_engine::scheduler::data::fixed::FixedDataSource::{initialize, reinitialize, next_u64} and RandomDataSource (Kani/CBMC, "
+        "harness c09_fixed_data_source_rewinds)",
     ],
-    "bounds_text": "every choice tree of depth <= 2 with branching <= 2 (3^3 = 27 trees per query: each internal node "
-    "ends the execution, offers one task or offers two), ids contiguous [0,1] and with a gap [0,2]; iteration bound "
-    "k in 0..=5 symbolic; unwind 6",
-    "outside": "deeper trees / more than two runnable tasks; the check_dfs entry point and Runner loop around the "
-    "scheduler (coroutines); step bounds are covered only in the sense that a tree truncated at depth 2 is a tree",
-    "rule": "",
+    "bounds_text": "whole runs: every choice tree of depth <= 2 with <= 2 (no bound) or <= 3 (any usize iteration bound) tasks offered per decision, "
+    "depth <= 3 with <= 2 tasks (no bound); thorough: depth 3 x 2 tasks and depth 2 x 4 tasks with any usize bound, depth 4 x 2 tasks without; the number "
+    "of tasks offered at a decision may depend on every earlier choice; task ids at every decision are symbolic (any strictly ascending usize values), the yielding "
+    "flag symbolic. Asserted: no schedule twice, no schedule skipped, the run ends after the last schedule, with a bound exactly min(bound, #schedules) "
+    "executions, every chosen task was offered, no panic, same seed and same draws (one before the first decision, one after the last) in every execution. "
+    "One step from an ARBITRARY state satisfying the representation invariant (stack of stored choices of length L <= 3 (5 thorough) with symbolic contents, depth s <= L, "
+    "n <= 3 (4) offered tasks with symbolic ids): next_task's result and post-state equal the lexicographic-successor specification and re-establish the invariant; "
+    "new_execution from an arbitrary state (L <= 3 (6), any iteration count < 2^63, any bound) stops exactly when the bound is reached or, after the "
+    "first iteration, no level has a sibling left, and otherwise counts the iteration, restarts at depth 0, rewinds the data stream and keeps the stack. "
+    "FixedDataSource (Kani): seeds 0x12345678 (the one DFS uses) and 0, four executions with 2/1/3/2 draws: same reported seed, same stream, and the seed re-creates the stream.",
+    "outside": "deeper / wider trees than stated for the whole-run claim (the one-step claim is what extends to them, by induction over the run, for stacks up to the stated length); "
+    "the check_dfs entry point and the Runner / ExecutionState around the scheduler (coroutines; engine-level code, DESIGN.md 2.1), i.e. that the runtime offers the same "
+    "tasks for the same prefix of choices; step bounds only in the sense that a tree truncated at depth n is a tree; std's Vec / slice / Option functions are hand-written "
+    "models, not std's code (list under assumptions)",
+    "rule": "for the MIR jobs: evaluations = z3 queries (path feasibility + assertions), one case = one explored path (tree shape x bound outcome); a whole-run instance "
+    "counts once per reachability witness reached; distinct tree shapes explored are reported per query as `distinct_shapes`.",
+    "assumptions": ["MIR jobs: rustc nightly MIR (-Zunpretty=mir, debug-assertions off, overflow-checks on) of shuttle-schedulers in the scratch copy; "
+                    "symbolic executor lib/mirsym.py: scalars are z3 bit-vectors/booleans, aggregates and references are concrete objects, "
+                    "the executor forks (z3 feasibility query) on every undecided branch; lengths of vectors and slices are concrete on every path"],
+    "explanation": "",
 }
+try:
+    import sys as _sys
+    _sys.path.insert(0, "/verif/lib")
+    PROPERTIES["C09"]["assumptions"] += __import__("mir_builtins_assumptions").ASSUMPTIONS + STANDARD_ASSUMPTIONS[:3]
+except Exception:
+    pass
 
 
 _DECISION_FUNCS = [
@@ -426,5 +473,5 @@ PROPERTIES["C10"] = {
 # validation, not registered as checks.
 import os as _os
 if not _os.environ.get("VERIF_EXPERIMENTAL"):
-    for _p in ("C18", "C04", "C09"):
+    for _p in ("C18", "C04"):
         PROPERTIES.pop(_p, None)
